@@ -5,6 +5,8 @@ Abstract view: disp(p) = displayed state of process p (forced state if any, else
 import ast
 from pyvc.spec import *
 
+GROUP = 'appstatus'   # contracts of one group use each other's contracts at call sites (pyvc/hooks.py contract_for_call)
+
 
 def disp(p):
     """displayed state of a process (C11 proves the getter equal to this)"""
